@@ -31,6 +31,22 @@ pub fn check_case(c: &FullCase, obs: &mut Obs) -> Result<(), String> {
             return Err(format!("tags {:?}: original vs deserialized differ: {:?}", tags, d));
         }
     }
+    // a receiving engine that enabled its tags BEFORE loading keeps them (no tag call afterwards)
+    if !c.tags.is_empty() {
+        let tr: Vec<&str> = c.tags.iter().map(|s| s.as_str()).collect();
+        let mut e3 = Engine::new(c.optimize);
+        e3.use_tags(&tr);
+        e3.deserialize(&bytes).map_err(|x| format!("deserialize of own bytes failed: {:?}", x))?;
+        e3.use_resources(res.iter().cloned());
+        let a = engine_answers(&e, c, None);
+        let b = engine_answers(&e3, c, None);
+        obs.inner_evals += a.len() as u64;
+        obs.label("tags-enabled-before-load");
+        if a != b {
+            let d: Vec<_> = a.iter().zip(b.iter()).filter(|(x, y)| x != y).take(2).collect();
+            return Err(format!("receiver enabled tags {:?} and then loaded bytes serialized without them: original (same tags) vs loaded differ: {:?}", c.tags, d));
+        }
+    }
     for r in &c.rules {
         if r.contains("#@#") { obs.label("unhide"); }
         if r.contains("+js(") { obs.label("scriptlet"); }
@@ -120,7 +136,7 @@ pub fn real_list_slices(ctx: &mut Ctx, per_list: usize, slice_len: usize) -> Vec
 }
 
 pub fn check(ctx: &mut Ctx) {
-    ctx.rule = "lists of 1-30 rules mixing every network shape (options, modifiers, tags, domains, hostname/full regexes, fusable rules) and cosmetic shape (hostnames, entities, negations, #@#, :style/:remove*, +js, generichide exceptions), debug on/off, optimise on/off; E=Engine(L), E'=Engine::new().deserialize(E.serialize_raw()); every network query under the empty and the case's tag set, csp, url_cosmetic_resources, hidden_class_id_selectors must be equal. big-group: 2-800 same-shape rules (mostly optimised, so fused sets cross 64/128/256 patterns) with one request per rule; lists occasionally carry a token-less rule with an 8-41 entry domain= list incl. dot-less hosts and requests whose URL contains those names. Plus deterministic slices of the real lists under /repo/data with requests/pages derived from their own rules. Non-trivial = the original engine gives at least one non-default answer.".into();
+    ctx.rule = "lists of 1-30 rules mixing every network shape (options, modifiers, tags, domains, hostname/full regexes, fusable rules) and cosmetic shape (hostnames, entities, negations, #@#, :style/:remove*, +js, generichide exceptions), debug on/off, optimise on/off; E=Engine(L), E'=Engine::new().deserialize(E.serialize_raw()); every network query under the empty and the case's tag set (tags set after loading, and on a second receiver enabled BEFORE loading), csp, url_cosmetic_resources, hidden_class_id_selectors must be equal. big-group: 2-800 same-shape rules (mostly optimised, so fused sets cross 64/128/256 patterns) with one request per rule; lists occasionally carry a token-less rule with an 8-41 entry domain= list incl. dot-less hosts and requests whose URL contains those names. Plus deterministic slices of the real lists under /repo/data with requests/pages derived from their own rules. Non-trivial = the original engine gives at least one non-default answer.".into();
     ctx.assumptions = vec![
         "all generated lists use default permissions while finding C08-scriptlet-permission-not-serialized is open".into(),
     ];
